@@ -547,8 +547,12 @@ func (fr *Frame) applyEffects(ct *FuncContract, fn *ssa.Function, sig *types.Sig
 				}
 			}
 		}
+		// every modifies-expression denotes a location of the pre-call state (s.f, elems(s.f): the elements of the
+		// slice s.f held before the call), so they are all evaluated against a snapshot taken before the first havoc
+		penv := env.child()
+		penv.st = st.clone()
 		for i, m := range ct.Modifies {
-			if err := fr.havocLoc(env, m, st); err != nil {
+			if err := fr.havocLoc(penv, m, st); err != nil {
 				fx.unsupported = append(fx.unsupported, fmt.Sprintf("modifies %q of %s: %v", ct.ModSrc[i], name, err))
 				fx.newEpoch(st)
 			}
